@@ -361,6 +361,13 @@ def stage_with_hook(stage, res):
                         pyrtl.optimize(update_working_block=False, block=blk)
                     elif use == 'copy':
                         pyrtl.copy_block(blk, update_working_block=False)
+                    elif use == 'reset':
+                        # the user starts another design in between and comes back to this one
+                        pyrtl.reset_working_block()
+                        m = pyrtl.MemBlock(4, 2, name='elsewhere')
+                        o = pyrtl.Output(4, 'elsewhere_o')
+                        o <<= m[pyrtl.Input(2, 'elsewhere_a')]
+                        pyrtl.Simulation().step({'elsewhere_a': 1})
                     else:
                         raise HarnessError('stage use %r' % use)
             res.faults.hit('used_before_extension:' + use)
